@@ -73,11 +73,11 @@ def analysis_kernel(name, tier, known, extra_harness=''):
                 hn = 'step_%s_c%d_%s' % (kn, ch, mn)
                 gen.append('#[kani::proof] #[kani::unwind(8)] fn %s() { step(%d, %d, %d) }' % (hn, mode, tag, ch))
                 quick = (kn in QUICK and ch == childs[-1]) or (expect != 'pass' and kn in ('Alias', 'Comp'))
-                if fname == 'derive' and sp.get('trait') not in ('Default', 'PartialEqOrPartialOrd'):
+                if fname == 'derive' and (sp.get('trait') not in ('Default',) or kn not in ('Comp', 'Array')):
                     quick = False          # the other three traits share the code path; thorough tier
                 if fname != 'derive' and kn in ('Vector', 'Pointer'):
                     quick = False
-                hs.append(H(hn, path=P + hn, expect=expect, timeout=900, weight=2 if kn == 'Comp' else 1, tier='quick' if quick else 'thorough',
+                hs.append(H(hn, path=P + hn, expect=expect, timeout=900, weight=(3 if fname == 'derive' else (2 if kn == 'Comp' else 1)), tier='quick' if quick else 'thorough',
                             may_unsat=("the neighbour's fact influences the result", 'Changed returned'),   # kind dependent; reachability is witnessed by the third cover
                             desc='%s, X = TypeKind::%s (child 1 = %s)%s: one-step obligations (B) local/inflationary/truthful/monotone, (C) dependency completeness' % (
                                 name, kn, ['Int', 'Float', 'TypeParam', 'Function'][ch], {0: '', 1: ', X not opaque (opaque X: finding F4 / unrealized region)', 2: ', X opaque (inverted: must keep failing while F4 stands)'}[mode]),
@@ -100,11 +100,11 @@ def analysis_kernel(name, tier, known, extra_harness=''):
 
 
 def dependencies_kernel(tier):
-    base, encd = ir_kernel.base_text(4, 12)
+    base, encd = ir_kernel.base_text(4, 4)
     text = '\n'.join([base, open(os.path.join(G, 'harness', 'ir_ctx.rs')).read(), 'pub mod deps { use super::*; ' + open(os.path.join(G, 'harness', 'ir_deps.rs')).read() + ' }'])
     k = Kernel(name='dependencies')
     k.files = {'src/lib.rs': text}
-    k.harnesses = [H('dependencies_' + n, path='deps::deps_proofs::dependencies_' + n, timeout=1500, weight=4, tier='quick' if n in ('Comp', 'Alias') else 'thorough',
+    k.harnesses = [H('dependencies_' + n, path='deps::deps_proofs::dependencies_' + n, timeout=1500, weight=4, tier='quick' if n in ('Alias',) else 'thorough',
                      desc='generate_dependencies on a 4-item context whose node X is a %s: X is recorded under child c exactly when both are allowlisted and Trace emits a considered edge; predicate = symbolic table over EdgeKind' % n,
                      sample={'X_kind': n, 'predicate': 'any subset of 15 edge kinds', 'allowlist': 'symbolic'}) for n in ('Comp', 'Alias', 'TemplateInstantiation', 'Function')]
     k.encoded = encd
